@@ -93,6 +93,16 @@ class Repo:
         pkgdir = os.path.join(self.root, PKG)
         if not os.path.isdir(pkgdir):
             raise AnalysisError("package directory %s not found" % pkgdir)
+        # raw trees of all modules first: the inliner may have to look into a sibling module
+        from . import inline as _inline
+        _inline.PKG.clear()
+        for fn in sorted(os.listdir(pkgdir)):
+            if fn.endswith(".py"):
+                try:
+                    with open(os.path.join(pkgdir, fn), encoding="utf-8") as fh:
+                        _inline.PKG[fn[:-3]] = ast.parse(fh.read())
+                except SyntaxError:
+                    pass
         for fn in sorted(os.listdir(pkgdir)):
             if not fn.endswith(".py"):
                 continue
